@@ -87,6 +87,16 @@ CHECKS.update({
    note="Trusted: TLC; Values!Reads as definition of 'read back as Nix data' (no Nix evaluator offline); harness/project.py data(). Exhaustive over the value palette of MC_Values (strings <= 2/3 characters over 11 classes, ints incl. 64-bit extremes, 9 float classes, lists/dicts/nestings) x 7 routes.",
    tech="TLA+ read-back semantics + TLC-judged real renderings of TLC-enumerated values"),
 })
+CHECKS.update({
+ "C07": dict(engine="robust", cat="fault_enumeration", ref="DESIGN.md §7 C07",
+   text="Damage.tla injects one fault (token deleted / duplicated, each of 18 delimiters inserted, truncation after / inside each chunk) into every Gen.tla construct in the tier's contexts, plus token soups and non-Nix text; for each text the real rebuild, `nima test', set, rm, the text as VALUE and `nima set' on stdin are executed and TLC (Robust.tla) judges pass-through, Fail/1, refusal and value well-formedness as a function of the two tree-sitter facts `has a syntax error' / `is exactly one expression'.",
+   note="Trusted: TLC; tree-sitter-nix 0.1.0 as the definition of 'contains a syntax error' (the library uses the same parser for that decision). Exhaustive over single faults of the generated programs in the tier's contexts.",
+   tech="TLA+ fault generator + TLC-judged real executions (fault enumeration)"),
+ "C20": dict(engine="robust", cat="model_checking", ref="DESIGN.md §7 C20",
+   text="(i) every Damage.tla text: parse+rebuild returns or raises ValueError / NixSyntaxError (TLC, Robust.tla). (ii) Work.tla: renderer calls of a nesting family obey Calls(F,n+1) = 1 + m*Calls(F,n); TLC proves on the model that Poly(c_d, c_2d) at d = 12 passes exactly for families whose multiplicities are all 1; the real counts (every renderer wrapped by a counter) of every family of period <= 2/3 over 16 kinds at depths 12 and 24, and of long flat files, are judged by TLC (Work_Trace).",
+   note="Trusted: TLC; renderer-call counts stand for running time (tree-sitter's parse time taken as linear); 5 s CPU guard per case, a trip is reported as a violation. RecursionError beyond Python's recursion limit (operator chains > a few hundred terms) is outside the bound.",
+   tech="TLA+ work recurrence (TLC-checked separating test) + TLC-judged measured call counts; TLC-judged error classes on enumerated faults"),
+})
 import os
 built = {p: m for p, m in CHECKS.items()}
 checks = []
@@ -128,6 +138,8 @@ man = {
     "kind_free_text": "spec/Mapping.tla (extends Edit/Doc) -> real item get/set/del histories on one object -> spec/Mapping_Trace.tla"},
    {"name": "values", "path": "harness/engines/values.py", "serves_properties": ["C13"],
     "kind_free_text": "spec/Values.tla + MC_Values (values x routes) -> real construction API -> spec/Values_Trace.tla"},
+   {"name": "robust", "path": "harness/engines/robust.py", "serves_properties": ["C07", "C20"],
+    "kind_free_text": "spec/Damage.tla (faults) + spec/Work.tla (nesting families) -> real library / CLI, renderer-call counters -> spec/Robust.tla, spec/Work_Trace.tla"},
  ],
  "checks": checks,
  "notes": "All checks: ./check <ID> [--tier quick|thorough]; VERIF_SEED / VERIF_TIER honoured. Known findings: known_findings.json. See DESIGN.md.",
